@@ -102,6 +102,10 @@ func judgeC01(run *vc.Run, d *pipeline.Design, rejects map[string]int) {
 		run.Violation("panic:"+d.Phase+":"+site, fmt.Sprintf("accepted design, generator %q panicked: %s", d.Phase, d.Errors), witnessOf(d))
 		return
 	case "generror":
+		if strings.Contains(d.Errors, "unsupported type: map[bool]") {
+			run.Violation("generror:"+d.Phase+":openapi-json-unsupported-map-key-bool", fmt.Sprintf("accepted design, generator %q failed: %s", d.Phase, firstLine(d.Errors)), witnessOf(d))
+			return
+		}
 		run.Violation("generror:"+d.Phase+":"+pipeline.NormMsg(firstLine(d.Errors)), fmt.Sprintf("accepted design, generator %q failed: %s", d.Phase, firstLine(d.Errors)), witnessOf(d))
 		return
 	case "timeout":
@@ -117,13 +121,16 @@ func judgeC01(run *vc.Run, d *pipeline.Design, rejects map[string]int) {
 	}
 	// accepted
 	if len(d.Diags) > 0 {
-		seen := map[string]bool{}
+		// one key per (file role, first diagnostic in that file): later diagnostics of a file are
+		// usually consequences of the first
+		seenFile := map[string]bool{}
 		for _, dg := range d.Diags {
-			k := "compile:" + pipeline.NormDiag(dg)
-			if seen[k] {
+			role := pipeline.FileRole(diagPath(dg))
+			if seenFile[role] {
 				continue
 			}
-			seen[k] = true
+			seenFile[role] = true
+			k := "compile:" + pipeline.NormDiag(dg)
 			run.Violation(k, "accepted design generates code that does not compile: "+dg, witnessOf(d))
 		}
 		return
@@ -266,4 +273,14 @@ func head(s string, n int) string {
 		return s[:n] + "…"
 	}
 	return s
+}
+
+func diagPath(dg string) string {
+	if i := strings.Index(dg, ": "); i >= 0 {
+		dg = dg[:i]
+	}
+	if j := strings.LastIndex(dg, ":"); j >= 0 {
+		dg = dg[:j]
+	}
+	return dg
 }
